@@ -140,7 +140,7 @@ let show_res (fl : flags) (r : value res) : string =
   | Ok (VStr s) -> "S:" ^ hex s
   | Ok (VBool b) -> if b then "B:1" else "B:0"
   | Ok (VNum x) ->
-      "F:" ^ show_num x ^ ":" ^ hex (if fl.f_n2s then impl_n2s x else spec_n2s fl.f_prec x)
+      "F:" ^ show_num x ^ ":" ^ hex (spec_n2s fl.f_prec x)
 
 (* the switches in the order in which they are put back; names are the known-finding tags (prefix "xpath-") *)
 let switches : (string * (flags -> flags)) list = [
@@ -151,8 +151,6 @@ let switches : (string * (flags -> flags)) list = [
   ("predicate-position-global", (fun f -> { f with f_predglobal = false }));
   ("string-value-indent", (fun f -> { f with f_strval = false }));
   ("string-bytes", (fun f -> { f with f_bytes = false }));
-  ("string-to-number", (fun f -> { f with f_s2n = false }));
-  ("number-to-string", (fun f -> { f with f_n2s = false }));
   ("long-double", (fun f -> { f with f_prec = spec_flags.f_prec }));
 ]
 
@@ -192,11 +190,13 @@ let run (f : string list) : string =
                 let i = show_res cflags (eval_top cflags t c e) in
                 if s = i then s ^ "|" ^ i ^ "|" else s ^ "|" ^ i ^ "|" ^ needed cflags t c e i))
   | ["xpk"; "s2n"; h] ->
-      (* recommendation (XPath 1.0 Number syntax) at the precision of the code | as coded (strtold) *)
+      (* recommendation (XPath 1.0 Number syntax) at the precision of the code | as coded (equal: s2n_impl_eq_spec) *)
       "F:" ^ show_num (spec_s2n impl_flags.f_prec (unhex h)) ^ "|F:" ^ show_num (impl_s2n impl_flags.f_prec (unhex h))
   | ["xpk"; "n2s"; h] ->
-      (* the driver reads the text with strtold; recommendation (shortest decimal that reads back) | as coded *)
-      let x = impl_s2n impl_flags.f_prec (unhex h) in
+      (* the driver reads the text (a plain decimal, inf, -inf or nan) with strtold;
+         recommendation (shortest decimal that reads back) | as coded (equal: n2s_impl_eq_spec) *)
+      let x = if h = "696e66" then XInf false else if h = "2d696e66" then XInf true else if h = "6e616e" then XNaN
+              else impl_s2n impl_flags.f_prec (unhex h) in
       "F:" ^ show_num x ^ ":" ^ hex (spec_n2s impl_flags.f_prec x) ^ "|F:" ^ show_num x ^ ":" ^ hex (impl_n2s x)
   | _ -> "?"
 
